@@ -715,6 +715,39 @@ static void check_ellipsoid(Ctx& ctx, EnvE& v, bool thorough) {
   delete tm; delete tme; delete merc; delete cea;
 }
 // static flattening/eccentricity conversions on an alphabet of shapes
+// scalar measures on a flattening alphabet dense enough (1-2-5 below 0.01, steps of 0.01 up to 0.1, then coarser; both signs) to enter
+// every band in which a shortcut (truncated series below a threshold in n) could be taken; cheap, no inverse conversions
+static void check_ellipsoid_dense(Ctx& ctx, double f) {
+  Ctx::Case cs(ctx);
+  const double a = A0;
+  merid::Ell E = merid::ell(a, f); Ellipsoid L(a, f); AuxLatitude A(a, f);
+  const char* reg = ell_regime(f); g_reg = reg;
+  const double TOL = C15tol("ellipsoid.measure", reg), TOLC = C15tol("ellipsoid.curvature", reg);
+  char nm[40]; snprintf(nm, sizeof nm, "f=%.12g", f);
+  mc::Fields F0{{"ellipsoid", nm}, {"ell_regime", reg}};
+  std::string key = std::string("ellipsoid-dense ") + nm;
+  rel_check(ctx, key, "dense.QuarterMeridian", L.QuarterMeridian(), E.M, TOL, F0);
+  rel_check(ctx, key, "dense.Area", L.Area(), merid::area(E), TOL, F0);
+  rel_check(ctx, key, "dense.Volume", L.Volume(), merid::volume(E), TOL, F0);
+  rel_check(ctx, key, "dense.RectifyingRadius(exact)", A.RectifyingRadius(true), merid::rectifying_radius(E), C15tol("aux.radii", reg), F0);
+  rel_check(ctx, key, "dense.AuthalicRadiusSquared(exact)", A.AuthalicRadiusSquared(true), merid::authalic_radius2(E), C15tol("aux.radii", reg), F0);
+  if (std::fabs(f) <= 1 / 150.0 * (1 + 1e-12)) {           // the series is claimed for |f| <= 1/150
+    rel_check(ctx, key, "dense.RectifyingRadius(series)", A.RectifyingRadius(false), merid::rectifying_radius(E), C15tol("aux.radii", reg), F0);
+    rel_check(ctx, key, "dense.AuthalicRadiusSquared(series)", A.AuthalicRadiusSquared(false), merid::authalic_radius2(E), C15tol("aux.radii", reg), F0);
+  }
+  for (double lat : {30.0, 60.0, 89.0, -45.0}) {
+    Q t = merid::tand(lat), sp, cp; merid::sincosd(lat, sp, cp);
+    std::string k2 = key + " lat " + fmt(lat);
+    rel_check(ctx, k2, "dense.MeridianDistance", L.MeridianDistance(lat), merid::meridian_distance(E, t), TOL, F0);
+    rel_check(ctx, k2, "dense.CircleRadius", L.CircleRadius(lat), merid::circle_radius(E, sp, cp), C15tol("ellipsoid.latitude", reg), F0);
+    rel_check(ctx, k2, "dense.CircleHeight", L.CircleHeight(lat), merid::circle_height(E, sp, cp), TOL, F0);
+    const double cf = (double)(1 + fabsq(E.e2) / E.e2m * (E.e2 > 0 ? 1 : 0));
+    rel_check(ctx, k2, "dense.MeridionalCurvatureRadius", L.MeridionalCurvatureRadius(lat), merid::rho(E, sp, cp), TOLC * cf, F0);
+    rel_check(ctx, k2, "dense.TransverseCurvatureRadius", L.TransverseCurvatureRadius(lat), merid::nu(E, sp, cp), TOLC * cf, F0);
+  }
+  if (ctx.want_sample()) ctx.sample(key);
+}
+
 static void check_shape_conversions(Ctx& ctx) {
   g_reg = "";
   const double TOL_SHAPE = C15tol("ellipsoid.shape", "*");
@@ -1130,6 +1163,16 @@ int main(int argc, char** argv) {
     ctx.sub("ellipsoid");
     ctx.bound("ellipsoid.lattice", std::string("same ellipsoids x +-") + (T ? "36" : "9") + " latitudes {0,1e-10,15,30,45,60,89,89.99999,90,...} x 5 azimuths {0,30,45,90,-120}; all inspectors; the same quantities from GeodesicExact, Geodesic, Rhumb, TransverseMercator(Exact), LambertConformalConic(stdlat 0), AlbersEqualArea(stdlat 0)");
     for (int i : eidx) { if (!ctx.take()) continue; check_ellipsoid(ctx, *env(i), T); }
+    ctx.sub("ellipsoid-dense");
+    {
+      std::vector<double> fs;
+      for (double x : {0.001, 0.002, 0.005, 0.01, 0.015, 0.02, 0.025, 0.03, 0.035, 0.04, 0.045, 0.05, 0.055, 0.06, 0.065, 0.07, 0.075, 0.08, 0.085, 0.09, 0.095, 0.1, 0.12, 0.15, 0.2, 0.25, 0.3, 0.4, 0.5, 0.6, 0.7, 0.8, 0.9}) { fs.push_back(x); fs.push_back(-x); }
+      for (double x : {1 / 298.257223563, 1 / 150.0, 1e-4, 1e-6, 1e-10, 0.95, 0.99}) { fs.push_back(x); if (x < 0.9) fs.push_back(-x); }
+      for (double x : {-1.5, -2.0, -3.0, -5.0, -9.0, -19.0, -49.0, -99.0}) fs.push_back(x);
+      fs.push_back(0.0);
+      ctx.bound("ellipsoid.dense", fmti((long long)fs.size()) + " flattenings: 0, +-{1e-10, 1e-6, 1e-4, 0.001, 0.002, 0.005, 1/298.257, 1/150, 0.01(0.005)0.1, 0.12, 0.15, 0.2, 0.25, 0.3(0.1)0.9}, 0.95, 0.99, -1.5 ... -99: QuarterMeridian, Area, Volume, rectifying radius and authalic radius^2 (exact; series for |f| <= 1/150), MeridianDistance, CircleRadius/Height, rho, nu at 4 latitudes against the __float128 quadrature");
+      for (double f : fs) { if (!ctx.take()) continue; check_ellipsoid_dense(ctx, f); }
+    }
     ctx.sub("shape-conversions");
     if (ctx.take()) check_shape_conversions(ctx);
   }
@@ -1157,6 +1200,18 @@ int main(int argc, char** argv) {
     ctx.bound("ellint.arguments", std::string("phi: +-{0,1e-8,0.5,pi/2,pi/2-1e-9,pi/2+1e-9,3,20") + (T ? ",1e-300,1e-100,1e-3,0.1,1,1.2,1.5,pi/2-+1e-5,pi/2-+1e-3,2,2.5,pi,4,3pi/2,2pi,7.5,10,31.4,50,100,100pi,1000,12345.678" : "") + "}; (sn,cn,dn) forms and delta-functions at " + (T ? "50" : "18") + " amplitudes in (-pi,pi]; Ed at 15 angles; Einv, am, sncndn at x: +-{0,1e-8,0.5,near and at the quarter period,3,20,...}");
     ctx.sub("elliptic");
     for (const Obj& o : objs) { if (!ctx.take()) continue; check_ellint(ctx, o, T); }
+    // 1-2-5 dense moduli on both signs (plus in-between values): every band in which a small-|k2| shortcut could be taken
+    ctx.sub("elliptic-dense");
+    {
+      std::vector<double> kd;
+      for (double x : {1e-12, 1e-9, 1e-7, 1e-6, 2e-6, 5e-6, 1e-5, 2e-5, 3e-5, 4e-5, 4.9e-5, 5e-5, 7e-5, 1e-4, 2e-4, 3e-4, 5e-4, 7e-4, 1e-3, 2e-3, 3e-3, 5e-3, 7e-3, 0.01, 0.02, 0.03, 0.05, 0.07, 0.1, 0.2, 0.3}) { kd.push_back(x); kd.push_back(-x); }
+      for (double x : {0.0066943799901413165 /* WGS84 e^2 */, 0.4, 0.6, 0.7, 0.8, 0.9, 0.95, -0.5, -0.7}) kd.push_back(x);
+      std::vector<Obj> od;
+      for (double k2 : kd) for (double a2 : {0.0, 0.3, -0.5}) od.push_back({"k2=" + fmt(k2) + " alpha2=" + fmt(a2), k2, a2, 1 - k2, 1 - a2, false});
+      for (double a2 : kd) if (std::fabs(a2) <= 1e-3) od.push_back({"k2=0.5 alpha2=" + fmt(a2), 0.5, a2, 0.5, 1 - a2, false});       // small |alpha2| as well
+      ctx.bound("ellint.dense", fmti((long long)od.size()) + " objects: k2 in +-{1e-12, 1e-9, 1e-7, 1e-6, 2e-6, 5e-6, 1e-5, 2e-5, 3e-5, 4e-5, 4.9e-5, 5e-5, 7e-5, 1e-4, 2e-4, 3e-4, 5e-4, 7e-4, 1e-3, ..., 0.3}, WGS84 e^2, 0.4 ... 0.95, -0.5, -0.7 x alpha2 in {0, 0.3, -0.5}; k2 = 0.5 with |alpha2| <= 1e-3 on the same ladder; the full battery of the elliptic subcheck (quick arguments) against the __float128 quadrature at the moderate-regime tolerances");
+      for (const Obj& o : od) { if (!ctx.take()) continue; check_ellint(ctx, o, false); }
+    }
     // E2: Reset histories
     ctx.sub("elliptic-history");
     {
